@@ -69,41 +69,49 @@ def _bc(it, clsname, grid, axis, upper, rank=0, normal=False, value=None, homoge
     return Instance(cls, attrs), par
 
 
+def ghost_symbolic(it, clsname, num_axes, axis, upper, normal=False, inhomogeneous=False, flip=False, route="interpreted"):
+    """the real ghost-cell setter of one condition (interpreted or compiled route) on a symbolic padded array"""
+    kind = KINDS[clsname]
+    grid, N, dx, facts = _grid(num_axes)
+    for f in facts:
+        it.ctx.assume(f)
+    if kind == "curvature":
+        it.ctx.assume(N[axis] >= 2)
+    rank = 1 if normal else 0
+    value = None
+    other = [a for a in range(num_axes) if a != axis]
+    if inhomogeneous:
+        vf = z3.Function("bc_value_at", *([z3.IntSort()] * len(other)), z3.RealSort())
+        value = fresh_array("value", tuple(N[a] for a in other), lambda idx: vf(*[to_z3(i) for i in idx]))
+    bc, par = _bc(it, clsname, grid, axis, upper, rank=rank, normal=normal, value=value, homogeneous=not inhomogeneous, flip=flip)
+    if inhomogeneous:
+        par["value_fn"] = vf
+    if kind == "mixed":
+        # finite Robin coefficient with 2 + dx*gamma != 0 (the statement's gamma is finite)
+        it.ctx.assume(2 + dx[axis] * to_z3(par["value"]) != 0)
+    comps = (num_axes,) if normal else ()
+    data = sym_array("data_full", comps + tuple(n + 2 for n in N))
+    before = data.buf.content
+    if route == "interpreted":
+        it.call(it.getattr(bc, "set_ghost_cells"), [data], {})
+    else:
+        # compiled route: NumbaBackend._make_local_ghost_cell_setter + the virtual-point evaluators of _boundaries.py
+        be = Instance(it.load_module("pde.backends.numba.backend").get("NumbaBackend"), {})
+        setter = it.call(it.getattr(be, "_make_local_ghost_cell_setter"), [bc], {})
+        it.call(setter, [data], {})
+    return data, before, N, dx, par, comps, other
+
+
 def ghost_unit(clsname, num_axes, axis, upper, normal=False, inhomogeneous=False, flip=False, route="interpreted"):
     kind = KINDS[clsname]
     second = kind == "curvature"
 
     def unit(U):
         def body(it):
-            grid, N, dx, facts = _grid(num_axes)
-            for f in facts:
-                it.ctx.assume(f)
-            if second:
-                it.ctx.assume(N[axis] >= 2)
-            rank = 1 if normal else 0
-            value = None
-            other = [a for a in range(num_axes) if a != axis]
-            if inhomogeneous:
-                vf = z3.Function("bc_value_at", *([z3.IntSort()] * len(other)), z3.RealSort())
-                value = fresh_array("value", tuple(N[a] for a in other), lambda idx: vf(*[to_z3(i) for i in idx]))
-            bc, par = _bc(it, clsname, grid, axis, upper, rank=rank, normal=normal, value=value, homogeneous=not inhomogeneous, flip=flip)
-            if inhomogeneous:
-                par["value_fn"] = vf
-            if kind == "mixed":
-                # finite Robin coefficient with 2 + dx*gamma != 0 (the statement's gamma is finite)
-                it.ctx.assume(2 + dx[axis] * to_z3(par["value"]) != 0)
-            comps = (num_axes,) if normal else ()
-            data = sym_array("data_full", comps + tuple(n + 2 for n in N))
-            before = data.buf.content
-            if route == "interpreted":
-                it.call(it.getattr(bc, "set_ghost_cells"), [data], {})
-            else:
-                # compiled route: NumbaBackend._make_local_ghost_cell_setter + the virtual-point evaluators of _boundaries.py
-                be = Instance(it.load_module("pde.backends.numba.backend").get("NumbaBackend"), {})
-                setter = it.call(it.getattr(be, "_make_local_ghost_cell_setter"), [bc], {})
-                it.call(setter, [data], {})
+            r = ghost_symbolic(it, clsname, num_axes, axis, upper, normal=normal, inhomogeneous=inhomogeneous, flip=flip, route=route)
+            if route != "interpreted":
                 U.absorb(it)
-            return data, before, N, dx, par, comps, other
+            return r
 
         for p, res in enumerate(explore_paths(U, body)):
             P = prem_of(res.ctx)
@@ -242,6 +250,103 @@ def _units():
 UNITS = _units()
 
 
+def engine_crosscheck(tier, seed):
+    """validation of the trusted base (NOT a proof): the symbolic result of the interpreter for a ghost-cell setter,
+    evaluated at a concrete random grid / condition / padded array, against the same real setter run under CPython
+    (numba JIT disabled) -- every entry of the padded array, both routes"""
+    import itertools as _it
+    import random
+    from fractions import Fraction as Q
+
+    from ..ctx import Ctx
+    from ..interp import Interp
+    from ..runner import native
+    from ..values import Unsupported
+
+    rnd = random.Random(2000 + seed)
+    configs = []
+    for cls in KINDS:
+        for route, axes_list in (("interpreted", (1, 2)), ("compiled", (1, 2, 3))):
+            for num_axes in axes_list:
+                for axis in range(num_axes):
+                    for upper in (False, True):
+                        for flip in ((False, True) if cls == "_PeriodicBC" else (False,)):
+                            configs.append(dict(cls=cls, route=route, num_axes=num_axes, axis=axis, upper=upper, flip=flip))
+    if tier == "quick":
+        configs = rnd.sample(configs, 30)
+    cases, engine = [], {}
+    for n, cfg in enumerate(configs):
+        it = Interp(Ctx())
+        try:
+            data, before, N, dx, par, comps, other = ghost_symbolic(it, cfg["cls"], cfg["num_axes"], cfg["axis"], cfg["upper"], flip=cfg["flip"], route=cfg["route"])
+        except Unsupported as e:
+            engine[n] = {"error": f"unsupported: {e}"}
+            continue
+        shape = [rnd.randint(2, 4) for _ in range(cfg["num_axes"])]
+        h = [Q(rnd.randint(1, 9), rnd.randint(2, 7)) for _ in range(cfg["num_axes"])]
+        value, const = Q(rnd.randint(-9, 9), rnd.randint(1, 5)), Q(rnd.randint(-9, 9), rnd.randint(1, 5))
+        if KINDS[cfg["cls"]] == "mixed" and 2 + h[cfg["axis"]] * value == 0:
+            value += 1
+        full_shape = tuple(k + 2 for k in shape)
+        vals = {idx: Q(rnd.randint(-20, 20), rnd.randint(1, 8)) for idx in _it.product(*[range(d) for d in full_shape])}
+        s = z3.Solver()
+        for a in range(cfg["num_axes"]):
+            s.add(N[a] == shape[a], dx[a] == to_z3(h[a]))
+        if "value" in par and not isinstance(par["value"], NDArr):
+            s.add(to_z3(par["value"]) == to_z3(value))
+        if "const" in par:
+            s.add(to_z3(par["const"]) == to_z3(const))
+        fn = z3.Function("data_full", *([z3.IntSort()] * len(full_shape)), z3.RealSort())
+        for idx, v in vals.items():
+            s.add(fn(*idx) == to_z3(v))
+        for c in list(it.ctx.assumptions) + list(it.ctx.pc):
+            s.add(c)
+        if s.check() != z3.sat:
+            engine[n] = {"error": "concrete instance does not satisfy the preconditions"}
+            continue
+        m = s.model()
+        got = {}
+        try:
+            for idx in vals:
+                v = m.eval(to_z3(data.read(idx)), model_completion=True)
+                got[idx] = float(v.numerator_as_long()) / float(v.denominator_as_long()) if z3.is_rational_value(v) else None
+        except Exception as e:
+            engine[n] = {"error": f"{type(e).__name__}: {e}"}
+            continue
+        engine[n] = got
+
+        def nested(prefix, dims):
+            if not dims:
+                return float(vals[prefix])
+            return [nested(prefix + (i,), dims[1:]) for i in range(dims[0])]
+
+        cases.append({"id": n, **cfg, "shape": shape, "h": [float(x) for x in h], "value": float(value), "const": float(const), "data": nested((), full_shape)})
+    res = native("boundaries.py", {"crosscheck": cases}, timeout=3000, disable_jit=True)
+    if not res.get("ok"):
+        raise RuntimeError(f"native cross-check driver failed: {res}")
+    nat = {r["id"]: r for r in res["results"]}
+    fails, compared = [], 0
+    for n, cfg in enumerate(configs):
+        tag = f"{cfg['cls']}[{cfg['route']},axes={cfg['num_axes']},axis={cfg['axis']},upper={cfg['upper']},flip={cfg['flip']}]"
+        e, r = engine.get(n), nat.get(n)
+        if e is None or "error" in e:
+            fails.append({"id": "engine_could_not_evaluate", "config": tag, "error": (e or {}).get("error")})
+            continue
+        if r is None or "error" in r:
+            fails.append({"id": "native_error", "config": tag, "error": (r or {}).get("error")})
+            continue
+        for idx, v in e.items():
+            w = r["out"]
+            for i in idx:
+                w = w[i]
+            compared += 1
+            if v is None or abs(v - w) > 1e-9 * (1 + abs(w)):
+                fails.append({"id": "engine_and_cpython_disagree", "config": tag, "cell": list(idx), "engine": v, "cpython": w})
+                break
+    return {"name": "engine_crosscheck_vs_cpython", "bound": f"{len(configs)} ghost-cell setter configurations (5 condition classes x both routes x axes x sides), one random concrete instance each, every entry of the padded array ({compared} entries): symbolic result of the interpreter vs the real setter under CPython with numba JIT disabled",
+            "cases": len(configs), "failures": fails[:8]}
+
+
 def replay(o):
     """replay of refuted obligations that have a native recipe: the same usage pattern on the real code"""
     from ..runner import native
@@ -267,7 +372,7 @@ def bounded(tier, seed):
     res = native("boundaries.py", {"seed": seed, "n": n}, timeout=3000)
     if not res.get("ok"):
         raise RuntimeError(f"native driver failed: {res}")
-    return [{"name": "conditions_at_the_boundary_all_types_aliases_formats_backends", "bound": f"{n} random grids per class x every BC type/alias/format x ranks 0-2 x numpy and numba setters",
+    return [engine_crosscheck(tier, seed), {"name": "conditions_at_the_boundary_all_types_aliases_formats_backends", "bound": f"{n} random grids per class x every BC type/alias/format x ranks 0-2 x numpy and numba setters",
              "cases": res["cases"], "failures": res["failures"]}]
 
 
